@@ -10,6 +10,7 @@ import (
 	"os"
 	"os/exec"
 	"path/filepath"
+	"regexp"
 	"sort"
 	"strings"
 
@@ -76,6 +77,30 @@ func FingerprintBuiltins(env *object.Env) string {
 	e := object.BuiltInNotImplemented
 	sb.WriteString(fmt.Sprintf("BuiltInNotImplemented: kind=%s msg=%q stack=%q\n", e.Kind(), e.Msg, e.StackTrace))
 	return sb.String()
+}
+
+var identRe = regexp.MustCompile(`[A-Za-z_][A-Za-z0-9_]*[!?]?`)
+
+// symtabIntegrity checks the process-wide symbol table for every name that occurs in
+// src: converting an interned symbol back must give a plain Str with exactly that text,
+// whatever objects earlier programs created (a later evalEnv/import hands these out).
+func symtabIntegrity(src string) string {
+	seen := map[string]bool{}
+	for _, name := range identRe.FindAllString(src, -1) {
+		if seen[name] {
+			continue
+		}
+		seen[name] = true
+		o, ok := object.SymHash2Str(object.GetSymHash(name))
+		if !ok {
+			return fmt.Sprintf("symbol %q cannot be converted back", name)
+		}
+		ps, isStr := o.(*object.PanStr)
+		if !isStr || ps.Value != name || ps.Proto() != object.BuiltInStrObj {
+			return fmt.Sprintf("symbol %q converts back to %s (proto %s)", name, o.Inspect(), clipStr(o.Proto().Inspect(), 80))
+		}
+	}
+	return ""
 }
 
 func firstDiffLine(a, b string) (string, string, string) {
@@ -228,7 +253,7 @@ type histProg struct {
 }
 
 func genHistory(t *tape.Tape, uniq string) histProg {
-	switch t.Pick(3, 1, 3, 3, 1, 2, 2, 2, 1, 2, 1, 3, 3, 2) {
+	switch t.Pick(3, 1, 3, 3, 1, 2, 2, 2, 1, 2, 1, 3, 3, 2, 2) {
 	case 0:
 		return histProg{kind: "fail-at-step", faultAt: 1 + t.Intn(4),
 			src: "hx1 := S(1)\nhx2 := [S(2), hx1]\nhf := {|a| S(3); a}\nhf(S(4))\n\"done\".p\n"}
@@ -260,6 +285,11 @@ func genHistory(t *tape.Tape, uniq string) histProg {
 	case 9:
 		return histProg{kind: "raise-and-defer", faultAt: 1 + t.Intn(2),
 			src: "hd := {|a|\n  defer \"cleanup\".p\n  S(1)\n  raise Err.new(\"hist boom\") if a\n  S(2)\n}\nhd(true)\n"}
+	case 14:
+		// values that descend from Str/Int are hashed, compared and used as keys under
+		// texts nobody interned before
+		return histProg{kind: "str-descendant-interned", faultAt: -1,
+			src: fmt.Sprintf("Secret := Str.bear({S: m{\"***\"}, p: m{\"hidden\".p}})\nk := Secret.new(\"hk_%s\")\n(k == \"hk_%s\").p\n%%{k: 1}.keys.len.p\n{a: 1}.which(k).p\n[k, Secret.new(\"zz_probe_key\")]@{|x| x == \"zz_probe_key\"}.p\n", uniq, uniq)}
 	case 13:
 		// re-binding the names of built-ins and of Kernel props in the program's own scope
 		return histProg{kind: "rebind-builtin-names", faultAt: -1,
@@ -314,6 +344,7 @@ var probes = []probeProg{
 	{"callee-name", "S(1)\n", ""},
 	{"try", "5.try.{|n| n / 0}.A.p\n5.try.{|n| hx1}.err.p\n", ""},
 	{"evalenv", "\"a := 1\".evalEnv.p\n\"px\".eval\n", ""},
+	{"evalenv-keys", "\"zz_probe_key := 1; yy_probe_key := 2\".evalEnv@{|k, v| \"#{k}=#{v} #{k.proto == Str}\"}.p\n", ""},
 	{"builtin-names-in-use", "[Int.keys.len > 0, [1].len, \"ab\".len, assertEq(1, 1), Kernel.keys.len > 0, true, nil, Err.new(\"e\").type == Err].p\nassert(false)\n", ""},
 	{"syntax-error", "ok := 1\nok +* 2\n", ""},
 	{"syntax-error2", "{|x| x\n", ""},
@@ -720,6 +751,10 @@ func (c *c19Check) runHistory(seed, run uint64, rec []uint32, s *C19Stats) []Vio
 		if fp := FingerprintBuiltins(c.it.Global); fp != c.baseFP {
 			name, a, b := firstDiffLine(c.baseFP, fp)
 			mk(fmt.Sprintf("C19/%s/builtin-changed/%s", fe.name(), name), nil, clipStr(a, 600), clipStr(b, 600))
+			break
+		}
+		if bad := symtabIntegrity(h.src + " zz_probe_key yy_probe_key"); bad != "" {
+			mk(fmt.Sprintf("C19/%s/symtab-entry-changed", fe.name()), nil, "every interned symbol converts back to a plain Str with its own text", bad)
 			break
 		}
 		// (2) a probe behaves as in a new process
